@@ -11,7 +11,7 @@ Structural clauses decided:
      to Err in every arm.
 """
 import facts as factsmod
-from mir import Program, callee_names, op_local
+from mir import Program, callee_names, op_local, edge_only_region
 import common
 import readset
 
@@ -74,6 +74,68 @@ def run(rep, tier="quick", replay=None, evidence_dir=None):
     rep.floor("C06.R1", "`?` propagations + explicit matches of read results", n_q + n_switch, 100)
     import c06_vpes
     c06_vpes.run(prog, rep)
+    # ---------------- R4: a read that may return fewer bytes than asked for must have its count looked at
+    rep.rule("C06.R4", "reads from the caller's reader are exact: read_exact, or the count returned by read / read_to_end is inspected")
+    readfns = readset.read_functions(prog)
+    n4 = 0
+    for key, b in sorted(readfns.items()):
+        params = set(readset.read_params(b, prog))
+        for bi, t in b.calls():
+            nm = callee_names(t["func"])
+            if not nm or nm[0] not in ("std::io::Read::read", "std::io::Read::read_to_end", "std::io::Read::read_to_string", "std::io::Read::read_buf"):
+                continue
+            ga = " ".join(t["func"].get("ga") or [])
+            import re as _re
+            if not any(_re.search(r"(^|[^A-Za-z0-9_])%s($|[^A-Za-z0-9_])" % _re.escape(p_), ga) for p_ in params):
+                continue   # not the caller-supplied reader (e.g. a decompressor over an in-memory block: its whole output is wanted)
+            if nm[0] != "std::io::Read::read" and "Take<" not in ga:
+                continue   # reading a whole stream to its end (schema text): there is no declared length to fall short of
+            n4 += 1
+            # the usize inside the io::Result must reach a comparison / switch (Ok(0), n == len ...)
+            d = t["dest"]["l"]
+            from mir import forward_taint
+            tainted = forward_taint(b, [d], through_calls=True)
+            inspected = False
+            for sbi in range(b.n):
+                tt = b.blocks[sbi]["term"]
+                if tt["t"] == "switch" and op_local(tt["discr"]) in tainted and "usize" in b.local_ty(op_local(tt["discr"])):
+                    inspected = True
+            for _, _, st in b.stmts():
+                if st["s"] == "assign" and st["rv"]["r"] == "bin" and st["rv"]["op"] in ("Eq", "Ne", "Lt", "Le", "Gt", "Ge"):
+                    for o in (st["rv"]["a"], st["rv"]["b"]):
+                        if op_local(o) in tainted and "usize" in b.local_ty(op_local(o)):
+                            inspected = True
+            rep.ob("C06.R4", "%s inspects the byte count returned by %s" % (b.path, nm[0].split("::")[-1]), inspected,
+                   "a short read (end of input inside the item) is taken for a complete item: the decoder returns Ok with fewer bytes than the datum declares", b.loc(bi))
+    rep.analysed["count-returning reads on a caller-supplied reader"] = n4
+    rep.floor("C06.R4", "count-returning reads examined", n4, 1)
+    # ---------------- R5: Option::None is produced only for the union's null branch
+    do = prog.bodies.get("<serde::deser_schema::SchemaAwareDeserializer<'s, 'r, R, S> as serde::Deserializer<'de>>::deserialize_option")
+    if do is None:
+        rep.anchor_error("C06.R5", "deserialize_option")
+    else:
+        rep.rule("C06.R5", "the schema-aware deserializer answers None only when the selected union branch is null")
+        vn = [(bi, t) for bi, t in do.calls() if callee_names(t["func"])[0].endswith("Visitor::visit_none")]
+        ok = len(vn) == 1
+        if ok:
+            ok = False
+            for bi, si, st in do.stmts():
+                if st["s"] == "assign" and st["rv"]["r"] == "discr" and st["rv"].get("adt") == "schema::Schema":
+                    root, projs = do.resolve_place(st["rv"]["pl"])
+                    if root == 1:
+                        continue   # the switch on self.schema (is it a union at all)
+                    dl = st["pl"]["l"]
+                    for sbi in range(do.n):
+                        tt = do.blocks[sbi]["term"]
+                        if tt["t"] == "switch" and op_local(tt["discr"]) == dl:
+                            adt = prog.adt("schema::Schema")
+                            null_idx = [v["name"] for v in adt["variants"]].index("Null")
+                            tg = dict(tt["targets"])
+                            nt = tg.get(null_idx)
+                            if nt is not None and do.dominates(nt, vn[0][0]) and edge_only_region(do, sbi, nt) is not None:
+                                ok = True
+        rep.ob("C06.R5", "deserialize_option calls visit_none only on the Null edge of the selected branch's schema", ok,
+               "a non-null branch decoded as None leaves its datum unread: the deserializer accepts bytes the generic decoder rejects, and Some(x) comes back as None", do.loc())
     rep.not_decided = ["validate(decode(b)) for concrete values (UTF-8, uuid text, decimal widths)", "re-encode equality"]
     return common.finish(rep, level="other",
                          explanation="static rules over MIR: (R1/R3) dominance query 'Ok constructed only reachable via the Err edge of a read result' over every Read-bounded function; (R2) variant-partitioned path summaries of decode_internal vs validate_internal",
